@@ -146,6 +146,130 @@ def OutcomeOk (c : PyConst) (o : Option (Str × CTy)) : Prop :=
 instance (c : PyConst) (o : Option (Str × CTy)) : Decidable (OutcomeOk c o) := by
   unfold OutcomeOk; split <;> exact inferInstance
 
+/-! ## a numeric constant stored through variables and casts
+
+A constant that is not used where it stands but assigned — to the result variable of a conditional
+expression, to the output column — is converted to the declared type of every variable (and by
+every written `static_cast`) on its way. "Denotes the same value" then also asks that the value
+survives these conversions. The C++ conversions ([conv.integral], [conv.fpint], [conv.double],
+[conv.bool]; LP64; binary64) are computed exactly, a double being given by its 64 bits. -/
+
+/-- an arithmetic value of the generated program -/
+inductive NVal where
+  | int (n : Int)
+  | dbl (bits : Nat)
+  | bool (b : Bool)
+  deriving DecidableEq, Repr
+
+/-- the binary64 that is exactly the integer `n` (|n| < 2^53), by its bits -/
+def intToDbl (n : Int) : Option Nat :=
+  let a := n.natAbs
+  if a = 0 then some 0
+  else if a < 2 ^ 53 then
+    let k := Nat.log2 a
+    some ((if n < 0 then 2 ^ 63 else 0) + (k + 1023) * 2 ^ 52 + (a * 2 ^ (52 - k) - 2 ^ 52))
+  else none
+
+/-- truncation toward zero of a finite double -/
+def dblToInt (bits : Nat) : Option Int :=
+  match decodeBits bits with
+  | none => none
+  | some (neg, m, e) =>
+    let a : Nat := if e ≥ 0 then m * 2 ^ e.toNat else m / 2 ^ (-e).toNat
+    some (if neg then -(a : Int) else (a : Int))
+
+/-- is the double (by its bits) also a binary32 value? (zero, or 24 significant bits and a normal
+binary32 exponent) -/
+def fitsFloat32 (bits : Nat) : Bool :=
+  bits % 2 ^ 63 == 0 ||
+  (bits % 2 ^ 29 == 0 && decide (897 ≤ bits / 2 ^ 52 % 2 ^ 11) && decide (bits / 2 ^ 52 % 2 ^ 11 ≤ 1150))
+
+def isIntTy : CTy → Bool
+  | .int | .uint | .long | .ulong | .llong | .ullong => true
+  | _ => false
+
+/-- The value after conversion to a variable (or cast) of type `t`; `none` when the conversion is
+undefined, implementation-defined or inexact in a way this model does not compute (out-of-range
+integers, a double that is not a binary32 value into `float`, `long double`, strings): in all
+those cases the value is not kept. -/
+def convTo (t : CTy) (v : NVal) : Option NVal :=
+  match t, v with
+  | .bool, .bool b => some (.bool b)
+  | .bool, .int n => some (.bool (n != 0))
+  | .bool, .dbl b => some (.bool (b % 2 ^ 63 != 0))
+  | .double, .dbl b => some (.dbl b)
+  | .double, .int n => (intToDbl n).map .dbl
+  | .double, .bool b => some (.dbl (if b then 4607182418800017408 else 0))
+  | .float, .dbl b => if fitsFloat32 b then some (.dbl b) else none
+  | .float, .int n => (intToDbl n).bind fun b => if fitsFloat32 b then some (.dbl b) else none
+  | .float, .bool b => some (.dbl (if b then 4607182418800017408 else 0))
+  | .ldouble, _ => none
+  | .string, _ => none
+  | t, .int n => if isIntTy t && fitsTy t n then some (.int n) else none
+  | t, .bool b => if isIntTy t then some (.int (if b then 1 else 0)) else none
+  | t, .dbl b =>
+    match dblToInt b with
+    | some n => if isIntTy t && fitsTy t n then some (.int n) else none
+    | none => none
+
+def convChain : List CTy → NVal → Option NVal
+  | [], v => some v
+  | t :: ts, v => (convTo t v).bind (convChain ts)
+
+/-- the program value a numeric constant is -/
+def valOf : PyConst → Option NVal
+  | .int n => some (.int n)
+  | .float (.finite ..) bits => some (.dbl bits)
+  | .bool b => some (.bool b)
+  | _ => none
+
+/-- numerically the same: two integers that are equal; otherwise the same double (an int `n` and
+the double that is exactly `n`, `true` and 1; the sign of zero counts) -/
+def sameNum : NVal → NVal → Bool
+  | .int a, .int b => a == b
+  | a, b =>
+    match convTo .double a, convTo .double b with
+    | some x, some y => x == y
+    | _, _ => false
+
+/-- the arithmetic value `v` is still `v` after the conversions of `chain` -/
+def keptVal (v : NVal) (chain : List CTy) : Bool :=
+  match convChain chain v with
+  | some w => sameNum v w
+  | none => false
+
+/-- the value that arrives after the conversions of `chain` is still the constant (a string: only
+through string variables — there is no conversion between strings and arithmetic types) -/
+def keptThrough (c : PyConst) (chain : List CTy) : Bool :=
+  match c with
+  | .str _ => chain.all (· == .string)
+  | _ =>
+    match valOf c with
+    | some v => keptVal v chain
+    | none => false
+
+/-- THE PROPERTY for a constant that is stored: the text assigned is a literal of the
+constant (`ConstOk`, with the type `visit_Constant` records for its kind) and the value survives
+the conversions to the types in `chain` (written casts and declared types of the variables it is
+assigned through, in order, the output column last). -/
+def StoredOk (c : PyConst) (text : Str) (chain : List CTy) : Prop :=
+  ConstOk c text (litTy c) ∧ keptThrough c chain = true
+
+instance (c : PyConst) (text : Str) (chain : List CTy) : Decidable (StoredOk c text chain) := by
+  unfold StoredOk; exact inferInstance
+
+/-- numeric constants the stored-value theorem speaks about: ints of the 32-bit range (larger ones
+are the listed finding), finite floats whose `repr` text is well formed and faithful, bools -/
+def StorableConst : PyConst → Prop
+  | .int n => InInt32 n
+  | .float (.finite neg ip fp ex) bits =>
+    WFRepr (.finite neg ip fp ex) ∧ ReprFaithful (.finite neg ip fp ex) bits
+  | .bool _ => True
+  | _ => False
+
+instance (c : PyConst) : Decidable (StorableConst c) := by
+  unfold StorableConst; split <;> exact inferInstance
+
 /-! ## strings: hypotheses of the partial results -/
 
 /-- characters that end or escape inside a C++ string literal -/
